@@ -79,6 +79,7 @@ type Exec struct {
 	embCodes       map[string]int
 	given          map[string]Val
 	curFn          *ssa.Function
+	pendingWitness *witnessReq
 	tier           string
 	pdoms          map[*ssa.Function]*pdomInfo
 	noMerge        bool
@@ -679,10 +680,16 @@ func (x *Exec) step(st *State) []*State {
 	case *ssa.Call:
 		if site, anns := x.siteAnns(st, fr, i.Call.Pos()); len(anns) > 0 {
 			env := x.siteEnvCall(st, fr, &i.Call)
+			x.pendingWitness = nil
 			for _, a := range anns {
 				if a.Kind == "assert" && !x.assumedOnly(a.Cl) {
 					t := x.evalBool(env, a.Cl.Expr, a.Cl)
 					x.oblige(st, fmt.Sprintf("%s/at:%s-assert#%d", x.curFunc, site, a.Cl.Ord), "site-assert", a.Cl.Tags, t, i.Call.Pos(), "before "+site+": "+a.Cl.Src)
+				}
+				if a.Kind == "witness" {
+					// scenario: the callee's result is this term; it must be admissible (satisfy the callee's postconditions)
+					w := x.evalTerm(env, a.Cl.Expr, i.Type(), a.Cl)
+					x.pendingWitness = &witnessReq{val: w, site: site, cl: a.Cl}
 				}
 			}
 		}
@@ -854,7 +861,14 @@ func (x *Exec) execAlloc(st *State, fr *Frame, a *ssa.Alloc) {
 		keys, sorts, typs := st.elemKeys(at.Elem())
 		for k := range keys {
 			arr := st.elemArr(nil, keys[k], sorts[k])
-			z := st.zeroVal(typs[k]).(Term)
+			var z Term
+			if typs[k] != nil {
+				z = st.zeroVal(typs[k]).(Term)
+			} else if sorts[k] == sRef {
+				z = Term{S: "ref_nil", Sort: sRef}
+			} else {
+				z = bv64(0)
+			}
 			zero := Term{S: "((as const " + sArr(sBV(64), sorts[k]) + ") " + z.S + ")", Sort: sArr(sBV(64), sorts[k])}
 			st.x.symCounter++
 			name := fmt.Sprintf("E_%s!%d", sanitize(keys[k]), st.x.symCounter)
@@ -919,8 +933,12 @@ func (x *Exec) load(st *State, addr Val, t types.Type) Val {
 		return st.loadElem(nil, a.Arr, a.Idx, a.Elem)
 	case ElemFieldPtr:
 		keys, sorts, typs := st.elemKeys(a.Elem)
-		r := tSelect(tSelect(st.elemArr(nil, keys[a.Field], sorts[a.Field]), a.Arr), a.Idx)
-		r.Typ = typs[a.Field]
+		k := elemFieldKeyIndex(under(a.Elem).(*types.Struct), a.Field)
+		if _, isSlice := under(under(a.Elem).(*types.Struct).Field(a.Field).Type()).(*types.Slice); isSlice {
+			panic(unsupported{"address of a slice-typed field of a slice element"})
+		}
+		r := tSelect(tSelect(st.elemArr(nil, keys[k], sorts[k]), a.Arr), a.Idx)
+		r.Typ = typs[k]
 		return r
 	case GlobalPtr:
 		gt := a.G.Type().(*types.Pointer).Elem()
@@ -973,7 +991,7 @@ func (x *Exec) store(st *State, fr *Frame, addr Val, v Val, t types.Type, at ssa
 	case ElemFieldPtr:
 		x.publishedCheck(st, fr, a.Arr, tTrue, at)
 		keys, sorts, _ := st.elemKeys(a.Elem)
-		k := a.Field
+		k := elemFieldKeyIndex(under(a.Elem).(*types.Struct), a.Field)
 		arr := st.elemArr(nil, keys[k], sorts[k])
 		inner := tStore(tSelect(arr, a.Arr), a.Idx, st.asTerm(v, nil))
 		st.x.symCounter++
@@ -1967,6 +1985,12 @@ func (x *Exec) havocMapAt(st *State, mt *types.Map, m Term) {
 	l := st.fresh("hv_maplen", sBV(64), nil)
 	st.assume(app(sBool, nil, "bvsle", bv64(0), l))
 	st.heapWrite(ln, sBV(64), m, l)
+}
+
+type witnessReq struct {
+	val  Term
+	site string
+	cl   *Clause
 }
 
 type modset struct {
